@@ -94,12 +94,26 @@ CheckGate(e) ==
   /\ Judge("C08", "OwnReply", e.ret.t # "panic" /\ ResultOK(e.op, e.a, e.cfg, e.delivered[1].b, e.ret),
             <<e.gate, e.ret>>, DecodeFields(Rsp[e.op], e.delivered[1].b))
 
+\* C17 / C03 on the real driver: a result is kept while 1..4 further exchanges (other operations, other paths, strays,
+\* wrong lengths) pass through the transport's receive buffers; projected again it is still the interpretation of its
+\* OWN datagram - "returned values are not affected by later reuse of the network buffers they were decoded from", "the
+\* content of any other datagram never appears in a returned result"
+CheckKept(e) ==
+  LET msgs == [i \in 1..Len(e.delivered) |-> e.delivered[i].b]
+      own(r) == IF e.op = "GetDevices" THEN DiscoveryOK(e.cfg, msgs, r)
+                ELSE Len(msgs) = 1 /\ ResultOK(e.op, e.a, e.cfg, msgs[1], r) IN
+  /\ Judge("C04", "NoPanic", e.ret.t # "panic" /\ e.ret_later.t # "panic", e.ret_later, "no panic")
+  /\ Judge("C17", "KeptResultUnaffected", e.ret_later = e.ret, <<e.kept, e.ret_later>>, e.ret)
+  /\ Judge("C03", "OnlyOwnDatagram", e.ret_later.t # "panic" /\ own(e.ret_later), <<e.kept, e.ret_later>>, e.ret)
+  /\ Judge("C02", "ResultOK", e.ret.t # "panic" /\ own(e.ret), <<e.kept, e.ret>>, "the interpretation of the delivered reply")
+
 \* calls whose arguments lie beyond what the projection can express (year 20000, HH:mm 100:100, ...)
 \* are judged for totality only
 Check(e) == IF e.op = "W26Intervals" THEN CheckW26(e)
             ELSE IF e.op = "Event" THEN CheckEvent(e)
             ELSE IF e.op = "Quiesce" THEN CheckQuiesce(e)
             ELSE IF Has(e, "gate") THEN CheckGate(e)
+            ELSE IF Has(e, "kept") THEN CheckKept(e)
             ELSE IF Has(e.a, "extreme") THEN CheckNoPanic(e)
             ELSE CheckSent(e) /\ CheckReject(e) /\ CheckSegmentRule(e) /\ CheckNoPanic(e) /\ CheckResult(e) /\ CheckRoute(e) /\ CheckDiscovery(e)
 
